@@ -926,6 +926,36 @@ func asmBusyExec(c *Ctx, op string) {
 		c.Distinct(op)
 		return
 	}
+	if strings.HasSuffix(op, " upper") {
+		// variant: the overlay's unmount succeeds, but its work area cannot be removed (something is mounted inside the
+		// upper directory): that teardown step has failed — it is reported, and nothing older is deleted after it.
+		os.Mkdir(filepath.Join(root, "b", "made"), 0755)
+		uppers, _ := filepath.Glob(filepath.Join(base, "riobase", "mount", "overlay", "*", "upper", "made"))
+		if len(uppers) != 1 || syscall.Mount("tmpfs", uppers[0], "tmpfs", 0, "size=64k") != nil {
+			cleanup()
+			unmountAllUnder(root)
+			c.H("busy-upper:skipped")
+			c.EmitR(op, "skip", "skip")
+			return
+		}
+		terr := cleanup()
+		_, fileErr := os.Lstat(filepath.Join(root, "a", "f"))
+		_, upErr := os.Lstat(uppers[0])
+		syscall.Unmount(uppers[0], syscall.MNT_DETACH)
+		c.H(fmt.Sprintf("busy-upper:upper-left=%v", upErr == nil))
+		if upErr == nil { // the removal of the work area really failed
+			if terr == nil {
+				c.PropFail("teardown-error-lost", "the removal of an overlay placement's work area failed (a mount inside its upper directory) but the teardown reported no error", op)
+			}
+			if fileErr != nil {
+				c.PropFail("delete-after-failure", "a copied plain-file placement was deleted after the removal of an overlay's work area had failed", op)
+			}
+		}
+		unmountAllUnder(root)
+		c.EmitR(op, "skip", "skip")
+		c.Distinct(op)
+		return
+	}
 	busy, _ := os.Open(filepath.Join(root, "z", "precious"))
 	terr := cleanup()
 	_, fileErr := os.Lstat(filepath.Join(root, "a", "f"))
@@ -966,4 +996,5 @@ func asmBusyEngine(c *Ctx) {
 	}
 	asmBusyExec(c, "asmbusy 1")
 	asmBusyExec(c, "asmbusy 2 overlay")
+	asmBusyExec(c, "asmbusy 3 upper")
 }
